@@ -1694,7 +1694,7 @@ SHAPES = ["generic", "generic", "block", "assembly", "core"]
 
 
 def plan(ctx):
-    nseq = ctx.pick(300, 1500)
+    nseq = ctx.pick(300, 1100)
     out = []
     for k in range(nseq):
         shape = SHAPES[k % len(SHAPES)]
